@@ -21,7 +21,9 @@ func init() {
 var c19Specs = []string{"[-c...]", "[C...]", "[OPTIONS] C", "-c", "-c C..."}
 var c19Toks = []string{"-c", "--cc", "-c=v", "-c=FAIL", "-cw", "v", "w", "FAIL", "--",
 	// values that read like booleans are ordinary tokens for Set; blanks belong to the token
-	"-c=off", "--cc=yes", " p "}
+	"-c=off", "--cc=yes", " p ",
+	// also the spellings strconv.ParseBool understands: Set receives "1" and "F", not "true" and "false"
+	"-c=1", "--cc=F"}
 var c19Envs = []string{"", "ev", "e1, e2", "FAIL"}
 
 func runCustom(c *Ctx) {
